@@ -51,7 +51,7 @@ type pwPath struct {
 	mem       map[string]ssa.Value // store-to-load forwarding: address key -> last stored value on this path
 	stores    map[string]ssa.Value // every store on the path (last value per address), never invalidated
 	seed      func(*pwPath, ssa.Value) (constant.Value, bool)
-	equate    bool                                             // a value found equal to a constant by a decision of this path folds to it (see equatedConst)
+	equate    bool                                            // a value found equal to a constant by a decision of this path folds to it (see equatedConst)
 	loadHook  func(*pwPath, *ssa.UnOp) (constant.Value, bool) // consulted when a load executes and no store on this path determines it
 	unknown   map[string]bool                                 // objects overwritten as a whole by a value that is not tracked
 	loadAt    map[ssa.Value]int                               // load -> number of events recorded when it (last) executed
@@ -885,6 +885,36 @@ func (pw *pathWalker) walk(fn *ssa.Function) {
 	root := &pwFrame{fn: fn}
 	st := &pwState{frame: root, block: fn.Blocks[0], p: &pwPath{seed: pw.seed, loadHook: pw.loadHook, equate: pw.equate, loadAt: map[ssa.Value]int{}, unknown: map[string]bool{}, consts: map[ssa.Value]constant.Value{}, alias: map[ssa.Value]ssa.Value{}, tuples: map[ssa.Value][]ssa.Value{}, mem: map[string]ssa.Value{}, stores: map[string]ssa.Value{}},
 		decided: map[ssa.Value]bool{}, arrived: map[*ssa.BasicBlock]int{}, arrivedEv: map[*ssa.BasicBlock]int{}, visits: map[*ssa.BasicBlock]int{}, inlined: map[*ssa.Function]bool{fn: true}}
+	// a parameter that every call site of the function feeds with the same constant (a flag, a token type the
+	// callers fix) has that value: func (c *compiler) evalReturnStatement(node, wrapType) called with token.RETURN
+	if !pw.noTables && fn.Prog != nil {
+		if w := worldOfProg(fn.Prog); w != nil && fn.Parent() == nil && inModule(fn) {
+			if sites, complete := w.callSitesAll(fn); complete && len(sites) > 0 {
+				for i, prm := range fn.Params {
+					if _, isBasic := prm.Type().Underlying().(*types.Basic); !isBasic {
+						continue
+					}
+					var common constant.Value
+					same := true
+					for _, site := range sites {
+						if i >= len(site.args) {
+							same = false
+							break
+						}
+						c, isC := site.args[i].(*ssa.Const)
+						if !isC || c.Value == nil || (common != nil && (common.Kind() != c.Value.Kind() || !constant.Compare(common, token.EQL, c.Value))) {
+							same = false
+							break
+						}
+						common = c.Value
+					}
+					if same && common != nil {
+						st.p.consts[prm] = common
+					}
+				}
+			}
+		}
+	}
 	// states are independent once forked: explore them on all cores; the result is put into a
 	// canonical order afterwards so that reports do not depend on scheduling
 	var (
